@@ -392,6 +392,8 @@ class SeriesOps:
                 def closed(t_):
                     return T.is_const(t_) or (isinstance(t_, tuple) and len(t_) == 2 and t_[0] == "tuple" and all(T.is_const(x_) for x_ in t_[1]))
                 keys_ = [(kk, to_term(kk) if not (isinstance(kk, tuple) and kk and isinstance(kk[0], str)) else kk) for kk in obj]
+                if closed(kt) and all(closed(t_) for _k, t_ in keys_) and kt not in [t_ for _k, t_ in keys_]:
+                    return pos[1] if len(pos) > 1 else None          # a known key that is not among the known keys: the default
                 if 0 < len(obj) <= 8 and not T.has_opaque(kt) and not closed(kt) and all(closed(t_) for _k, t_ in keys_) and I.run.loop_depth == 0:
                     for kk, t_ in keys_:
                         if t_[0] == "tuple" and kt[0] == "tuple" and len(t_[1]) == len(kt[1]):
